@@ -148,7 +148,7 @@ func init() {
 			return tuple{iface{}, false}
 		}
 		if iv, isI := v.(iface); isI {
-			return tuple{iv, true}
+			return tuple{toGeneric(iv.t, iv.v), true}
 		}
 		panic(infraError{"DecodeJSON: stored value is not an interface value"})
 	})
@@ -232,3 +232,241 @@ func strElemsBytes(s string) []value {
 }
 
 var _ = ssa.NewProgram
+
+// gjson.GetBytes(json, "key") for top-level keys of a token body (gjson is unsafe-based).
+func init() {
+	ex := externals
+	ex["github.com/tidwall/gjson.GetBytes"] = func(fr *frame, a []value) value { return gjsonGet(fr, a[0], a[1]) }
+	ex["github.com/tidwall/gjson.Get"] = func(fr *frame, a []value) value { return gjsonGet(fr, a[0], a[1]) }
+	ex["github.com/tidwall/gjson.ValidBytes"] = func(fr *frame, a []value) value { _, ok := E.jsonLookup(a[0]); return ok }
+	ex["github.com/tidwall/gjson.Valid"] = func(fr *frame, a []value) value { _, ok := E.jsonLookup(a[0]); return ok }
+}
+
+// gjson.Result{Type, Raw, Str, Num, Index, Indexes}; Type: Null=0 False=1 Number=2 String=3 True=4 JSON=5
+func gjsonResult(typ int, raw, str value, num float64) value {
+	return structure{typ, raw, str, num, 0, []value(nil)}
+}
+
+func gjsonGet(fr *frame, body, path value) value {
+	E.Stubs["gjson.Get on a JSON-boundary token (top-level key lookup)"]++
+	none := gjsonResult(0, "", "", 0)
+	v, ok := E.jsonLookup(body)
+	if !ok {
+		return none
+	}
+	key := concreteString(path)
+	if strings.ContainsAny(key, ".#*?|@") {
+		panic(infraError{"gjson path beyond a top-level key is not modelled: " + key})
+	}
+	iv, isI := v.(iface)
+	if !isI || iv.t == nil {
+		return none
+	}
+	var field value
+	found := false
+	switch u := iv.t.Underlying().(type) {
+	case *types.Map:
+		if m, ok := iv.v.(*omap); ok && m != nil {
+			field, found = m.lookup(key)
+		}
+	case *types.Struct:
+		s := iv.v.(structure)
+		for i := 0; i < u.NumFields(); i++ {
+			tag := reflectTagJSON(u.Tag(i))
+			name := strings.Split(tag, ",")[0]
+			if name == "" {
+				name = u.Field(i).Name()
+			}
+			if name == key {
+				field, found = s[i], true
+				if strings.Contains(tag, "omitempty") && isZeroValue(field) {
+					found = false
+				}
+			}
+		}
+	case *types.Pointer:
+		panic(infraError{"gjson over pointer token value"})
+	}
+	if !found {
+		return none
+	}
+	if f, ok := field.(iface); ok {
+		field = f.v
+		if f.t == nil {
+			return gjsonResult(0, "null", "", 0)
+		}
+	}
+	switch x := field.(type) {
+	case string, symstr:
+		return gjsonResult(3, "\"…\"", x, 0)
+	case bool:
+		if x {
+			return gjsonResult(4, "true", "", 0)
+		}
+		return gjsonResult(1, "false", "", 0)
+	case int:
+		return gjsonResult(2, strconv.Itoa(x), "", float64(x))
+	case float64:
+		return gjsonResult(2, strconv.FormatFloat(x, 'g', -1, 64), "", x)
+	case sym:
+		E.Stubs["gjson number from symbolic int (Num opaque 0)"]++
+		return gjsonResult(2, "<n>", "", 0)
+	}
+	return gjsonResult(5, "{…}", "", 0)
+}
+
+func reflectTagJSON(tag string) string {
+	// minimal struct tag lookup for key "json"
+	for tag != "" {
+		i := 0
+		for i < len(tag) && tag[i] == ' ' {
+			i++
+		}
+		tag = tag[i:]
+		if tag == "" {
+			break
+		}
+		i = 0
+		for i < len(tag) && tag[i] != ':' {
+			i++
+		}
+		if i+1 >= len(tag) || tag[i+1] != '"' {
+			break
+		}
+		name := tag[:i]
+		tag = tag[i+1:]
+		j := 1
+		for j < len(tag) && tag[j] != '"' {
+			if tag[j] == '\\' {
+				j++
+			}
+			j++
+		}
+		if j >= len(tag) {
+			break
+		}
+		val, _ := strconv.Unquote(tag[:j+1])
+		tag = tag[j+1:]
+		if name == "json" {
+			return val
+		}
+	}
+	return ""
+}
+
+func isZeroValue(v value) bool {
+	switch x := v.(type) {
+	case string:
+		return x == ""
+	case symstr:
+		return len(x) == 0
+	case bool:
+		return !x
+	case int:
+		return x == 0
+	case float64:
+		return x == 0
+	case iface:
+		return x.t == nil
+	case []value:
+		return len(x) == 0
+	case *omap:
+		return x.len() == 0
+	case *value:
+		return x == nil
+	}
+	return false
+}
+
+// ---- generic form: what encoding/json would yield when decoding the marshalled value into
+// interface{} (objects -> map[string]interface{}, arrays -> []interface{}, numbers -> float64).
+
+var (
+	tEmptyIface = types.NewInterfaceType(nil, nil).Complete()
+	tGenMap     = types.NewMap(types.Typ[types.String], tEmptyIface)
+	tGenSlice   = types.NewSlice(tEmptyIface)
+)
+
+func toGeneric(t types.Type, v value) iface {
+	if t == nil {
+		return iface{}
+	}
+	switch u := t.Underlying().(type) {
+	case *types.Interface:
+		iv, _ := v.(iface)
+		if iv.t == nil {
+			return iface{}
+		}
+		return toGeneric(iv.t, iv.v)
+	case *types.Pointer:
+		p, _ := v.(*value)
+		if p == nil {
+			return iface{}
+		}
+		return toGeneric(u.Elem(), *p)
+	case *types.Struct:
+		s := v.(structure)
+		m := &omap{keyType: types.Typ[types.String], idx: map[value]int{}}
+		for i := 0; i < u.NumFields(); i++ {
+			if !u.Field(i).Exported() {
+				continue
+			}
+			tag := reflectTagJSON(u.Tag(i))
+			parts := strings.Split(tag, ",")
+			name := parts[0]
+			if name == "-" {
+				continue
+			}
+			if name == "" {
+				name = u.Field(i).Name()
+			}
+			if strings.Contains(tag, "omitempty") && isZeroValue(s[i]) {
+				continue
+			}
+			m.insert(name, toGeneric(u.Field(i).Type(), s[i]))
+		}
+		return iface{tGenMap, m}
+	case *types.Map:
+		src, _ := v.(*omap)
+		if src == nil {
+			return iface{}
+		}
+		m := &omap{keyType: types.Typ[types.String], idx: map[value]int{}}
+		for i := range src.keys {
+			m.insert(src.keys[i], toGeneric(u.Elem(), src.vals[i]))
+		}
+		return iface{tGenMap, m}
+	case *types.Slice:
+		src, _ := v.([]value)
+		if src == nil {
+			return iface{}
+		}
+		if b, ok := u.Elem().Underlying().(*types.Basic); ok && b.Kind() == types.Byte {
+			panic(infraError{"[]byte in a JSON value (base64) is not modelled"})
+		}
+		out := make([]value, len(src))
+		for i := range src {
+			out[i] = toGeneric(u.Elem(), src[i])
+		}
+		return iface{tGenSlice, out}
+	case *types.Basic:
+		switch {
+		case u.Info()&types.IsString != 0:
+			return iface{types.Typ[types.String], v}
+		case u.Info()&types.IsBoolean != 0:
+			return iface{types.Typ[types.Bool], v}
+		case u.Info()&types.IsInteger != 0:
+			if s, ok := v.(sym); ok {
+				// keep symbolic integers as integers: harness helpers accept int or float64
+				return iface{types.Typ[types.Int], E.symConv(types.Typ[types.Int], t, s)}
+			}
+			return iface{types.Typ[types.Float64], float64(asInt64(v))}
+		case u.Info()&types.IsFloat != 0:
+			if f, ok := v.(float32); ok {
+				return iface{types.Typ[types.Float64], float64(f)}
+			}
+			return iface{types.Typ[types.Float64], v}
+		}
+	}
+	panic(infraError{"toGeneric: unsupported type " + t.String()})
+}
